@@ -124,8 +124,8 @@ trailer values, C06 `*`-prefixed targets, password-only userinfo and CONNECT tar
 class that was too wide hid a seeded change; the classes now name exactly the values that fail on the pristine tree), C10 hosts with a leading
 digit, C15 comparisons against every operand form (datetime, struct_time, number, text), C05 1xx statuses, C20 body supply modes (written to,
 partly read).
-Three stored patches were rebased after a `fix:` commit touched the same line (C17-1, C03-1; noted in their notes.txt); one agent proposal was
-rejected because a repair made it harmless (`seeded/rejected/`).
+Three stored patches were rebased after a `fix:` commit touched the same line (C17-1, C03-1; noted in their notes.txt); two stored changes were
+moved to `seeded/rejected/` because a repair made them harmless (C04-2 by F50, C12-1 by F60: their demonstrations pass with the patch applied).
 """
 
 if __name__ == '__main__':
